@@ -6,6 +6,7 @@ capacities (taken from the descriptor contract in cat.h, not from the code's
 own accessors), the C library functions used, and the four families of user
 callbacks.  Ghost (typestate) bookkeeping for NUL-termination lives here too.
 """
+import os
 from .lin import Lin, INF
 from .frontend import AnalysisBroken, node_pos
 from .interp import NULL, TOP, SELF, is_lin, lin_repr, Unsupported
@@ -264,6 +265,11 @@ class CatModel:
                 ok = lane = self._lane_lemma(off, s, it)
             if not ok and lo >= 0 and hi_ok is False:
                 ok = False
+        if not ok and os.environ.get('CATSA_OBDBG') and region[0] == 'vdata':
+            import sys
+            sys.stderr.write('OBDBG line %s off %s cap %s lo %s\n  iv %s\n  ub %s\n' % (node_pos(n)[1], off, cap, lo,
+                             {a: v for a, v in s.facts.iv.items() if any(a == t[0] for t in off.terms) or 'data_size' in a or 'access' in a},
+                             {k: v for k, v in s.facts.ub.items() if any(a == t[0] for t in off.terms for a, _ in k)}))
         s.ev('ob', n, ob='bound', ok=ok, region=region, off=off, width=width, cap=cap, access=kind, lane=lane)
         return ok
 
